@@ -32,6 +32,44 @@ fn record(args: &[String]) {
     for case in 0..n {
         let hostile = case % 3 != 0;
         let mut doc = gen::random_document(&mut rng, max_objects, hostile, true);
+        // half of the documents are first taken through a few public editing calls, so that save/load is also
+        // exercised on states reached by editing (compressed streams, renumbered ids, pruned graphs, ...)
+        if case % 2 == 1 {
+            for _ in 0..1 + rng.below(4) {
+                let op = rng.below(7);
+                let snapshot = doc.clone();
+                let r = guarded(|| {
+                    let mut d = snapshot.clone();
+                    match op {
+                        0 => d.compress(),
+                        1 => d.decompress(),
+                        2 => d.renumber_objects(),
+                        3 => {
+                            d.prune_objects();
+                        }
+                        4 => {
+                            d.add_object(Object::string_literal("added"));
+                        }
+                        5 => {
+                            if let Some(id) = d.objects.keys().next().copied() {
+                                d.delete_object(id);
+                            }
+                        }
+                        _ => d.delete_zero_length_streams().clear(),
+                    }
+                    d
+                });
+                if let Ok(d) = r {
+                    // stay inside C01's domain: distinct object numbers, max_id not below any number
+                    let mut nums: Vec<u32> = d.objects.keys().map(|k| k.0).collect();
+                    nums.sort();
+                    let distinct = nums.windows(2).all(|w| w[0] != w[1]);
+                    if distinct && nums.last().map_or(true, |m| *m <= d.max_id) {
+                        doc = d;
+                    }
+                }
+            }
+        }
         let fmt = if case % 2 == 0 { "table" } else { "stream" };
         doc.reference_table.cross_reference_type =
             if fmt == "table" { XrefType::CrossReferenceTable } else { XrefType::CrossReferenceStream };
